@@ -332,7 +332,8 @@ Section C06.
      Raise (SolutionError (Some c))).
   Proof. intros H1 H2 H3 H4 H5 H6. exact (after_exception_surfaces_general num sub absf ltb isfin zero ev before after d o t s p v1 H1 H2 H3 H4 H5 H6 k0 v'' c). Qed.
 
-  (* solve_t consults its oracles only at this call's period argument, `errors` and `catch_first_error` (the warnings filter
+  (* (extensionality of a function application — a remark about the TYPING of the model, not counted as covering a clause)
+     solve_t consults its oracles only at this call's period argument, `errors` and `catch_first_error` (the warnings filter
      is selected from exactly these two options and nothing else) *)
   Theorem C06_solve_t_hooks_ext (ev' before' after' : hook num) d o t s :
     (forall k v, ev t (errors o) (catch_first o) k v = ev' t (errors o) (catch_first o) k v) ->
@@ -425,7 +426,11 @@ Theorem C06_history_status_invariant sc d kind cs (s : fstate) span :
      (x = Skipped /\ exists c, In c cs /\ hcall_errors c = Some ESkip) \/
      (x = ErrorSt /\ exists c, In c cs /\ hcall_errors c = Some ERaise)).
 Proof. exact (hist_status_invariant sc d kind cs s span). Qed.
-(* ANY history, reindex() included: every status is one of the five values — one present in the start state, the fill '-' of a
+(* SCOPE NOTE: the reindex() of these histories is `m.reindex(span)` WITHOUT fill keywords (HReindex has no fill argument, and the
+   harness never passes one).  Since 2658d81 `reindex(span, status='Q')` is effective and puts the caller's own value into the new
+   periods — a status outside the five letters that comes from USER INPUT, not from a solver call; such histories are outside this
+   theorem (and outside the statement's "statuses written by the solver").
+   ANY history, reindex() (without fill keywords) included: every status is one of the five values — one present in the start state, the fill '-' of a
    reindex, '.', 'F', 'S' (only after a call with errors='skip') or 'E' (only after one with errors='raise'); status and iterations
    stay equally long *)
 Theorem C06_history_status_invariant_general sc d kind cs (s : fstate) span :
